@@ -1,6 +1,6 @@
 #!/usr/bin/env python3
 """Writes seeded/<id>/meta.json: re-validates the seed (suite + demo with and without the change) in a scratch worktree and
-records which checks report it (from a matrix run directory, default /tmp/ev_matrix_mx)."""
+records which checks report it (from a matrix run directory written by tools/matrix.sh, default /tmp/ev_matrix)."""
 import json
 import os
 import re
@@ -28,6 +28,25 @@ NEEDS = {
     "C18": "an incoming stream message (command 4) over MQTT: the subscriptions are now built with range(4)",
     "C17": "undecodable bytes in a complete line or in the partial bytes at EOF (the error constructor decodes them)",
     "C19": "under 2.x only: node presentation, child presentation, node presentation again (children are carried over; 1.x wipes them)",
+    # second round: each change had to need something specific to manifest and avoid the most obvious way of breaking the property
+    "C01b": "a payload longer than 25 characters in a message for a node other than 0: the encoder cuts it 'like the radio frame'",
+    "C02b": "protocol 2.2 only (its module gets an own Command enum with the reserved values 5-7) and a line with command 5, 6 or 7 and a child id other than 255",
+    "C03b": "a known node and a battery payload that float() parses to NaN: the range test was rewritten with < / > (both false for NaN) and round() moved out of the try",
+    "C04b": "2.x only: a known node with children, an outstanding presentation request for it, then its node presentation: the old children are carried over",
+    "C05b": "node 0 already registered (persistence, or presented under another gateway version) with the same version string: its presentation no longer sets the gateway version",
+    "C06b": "a version report (I_VERSION) with an invalid payload while the version is unknown: I_VERSION was added to the messages that do not trigger the version query",
+    "C07b": "a req from a node flagged sleeping for a stored value: the reply is now sent with buffering allowed and lands in the sleep buffer (a non-wake message changes the buffer)",
+    "C08b": "a write fault during a release and a later wake with no new command buffered in between: a per-node 'pending' mark is cleared before the release and gates later releases",
+    "C09b": "2.2 only, at least two buffered keys, a send for a not yet written key while the release is suspended in a write: the wake handler clears node.sleeping for the duration of the release",
+    "C10b": "2.x: an outstanding presentation request for a node and a wake of that node: the release now also writes (and forgets) the request markers",
+    "C11b": "a sparse registry whose highest id is 254 or 255 (static ids, persistence): the capacity guard counts nodes instead of checking the computed id",
+    "C12b": "2.x: a second presentation request (internal type 19) while one is pending, sent through Gateway.send: silently dropped - neither written, parked nor failed",
+    "C13b": "a node (not a child) whose stored type is 0: the legacy-null default moved after the key rename and tests falsiness instead of None",
+    "C14b": "an otherwise valid record whose battery_level is an int outside 0..100: the shared error template has a placeholder marshmallow's Range does not supply (KeyError)",
+    "C16b": "leaving the context while the saver is inside a save: asyncio.shield keeps the inner save running (same idea as the first C16 seed, found independently)",
+    "C17b": "a line longer than the StreamReader limit followed by further reads: the overrun handler drains err.consumed bytes, leaving the stream inside a line",
+    "C18b": "more than 100 broker messages before a read: the receive queue got maxsize=100 and put_nowait raises QueueFull inside the receive task",
+    "C19b": "a child of type S_HEATER / S_CUSTOM and a set whose value type the 1.4 table lists for it but newer tables do not (or vice versa): shared handle_set consults the per-version table",
 }
 
 
@@ -38,7 +57,7 @@ def sh(cmd, cwd=None, env=None):
     return p.returncode, (p.stdout + p.stderr).strip().splitlines()[-1:] or [""]
 
 
-def main(ids, matrix="/tmp/ev_matrix_mx"):
+def main(ids, matrix="/tmp/ev_matrix"):
     for sid in ids:
         d = os.path.join(V, "seeded", sid)
         w = f"/tmp/meta_{sid}"
@@ -66,7 +85,7 @@ def main(ids, matrix="/tmp/ev_matrix_mx"):
                 else:
                     clean.append(m.group(1))
         meta = {
-            "breaks_property": sid,
+            "breaks_property": sid[:3],
             "needs_to_manifest": NEEDS.get(sid, ""),
             "written_by": "independent sub-agent given only the property text and a scratch worktree",
             "validated": {
@@ -75,7 +94,7 @@ def main(ids, matrix="/tmp/ev_matrix_mx"):
                 "commands": [f"cd <worktree of /repo main> && PYTHONPATH=src /venv/bin/python seeded/{sid}/{demo}   # expect PASS",
                              f"git apply seeded/{sid}/patch.diff && PYTHONPATH=src /venv/bin/python -m pytest -q -p no:cacheprovider   # expect 273 passed",
                              f"PYTHONPATH=src /venv/bin/python seeded/{sid}/{demo}   # expect FAIL",
-                             f"VERIF_REPO=<worktree> VERIF_EVIDENCE_DIR=/tmp/ev ./check {sid}   # expect exit 1 with a VIOLATION line"],
+                             f"VERIF_REPO=<worktree> VERIF_EVIDENCE_DIR=/tmp/ev ./check {sid[:3]}   # expect exit 1 with a VIOLATION line"],
             },
             "checks_reporting_a_violation": detected, "checks_clean": clean, "checks_other_nonzero": other,
         }
